@@ -1106,6 +1106,10 @@ class CircuitDAG(CircuitBase):
                         target=q_regs[1],
                         target_type=q_types[1],
                     )
+                elif issubclass(gate_class, ops.MeasurementZ):
+                    gate = gate_class(
+                        register=q_regs[0], reg_type=q_types[0], c_register=c_regs[0]
+                    )
                 else:
                     gate = gate_class(register=q_regs[0], reg_type=q_types[0])
 
